@@ -161,7 +161,11 @@ theorem mainLoop_weak (C : TQContract) : ∀ (f : Nat) (s : State), Good C LoopT
           · rw [heq4]; dsimp only
             rw [if_neg (by simp [hp.fault])]
             have hnr : m3.nets.any (·.ready) = false := hclear4 rfl
-            rcases timerGet_cases hr4 hstop3 himm3 hnr with ⟨heq5, hexp⟩ | ⟨s5, id, m', heq5, hs, hr5, hfired, e1, _, e3⟩
+            have hlook3 : m3.looked = true := by
+              rcases hp.looked with h | h
+              · exact h
+              · exact absurd h hi
+            rcases timerGet_cases hr4 hstop3 himm3 hnr hlook3 with ⟨heq5, hexp⟩ | ⟨s5, id, m', heq5, hs, hr5, hfired, e1, _, e3⟩
             · -- nothing left to do
               rw [heq5]; dsimp only
               refine Or.inl ⟨hp.fault, m3, hp.run, hr4, ?_⟩
@@ -287,7 +291,7 @@ theorem runInternal_weak (C : TQContract) (fuel : Nat) (s : State) (h : Good C (
 
 /-- the monitor's state after `runBegin` -/
 def begunM (m : C05.M) : C05.M :=
-  { m with inRun := true, fired := 0, polled := false, startRunnable := C05.runnable m, startIntr := m.intr, mustFire := false, stop := none }
+  { m with inRun := true, fired := 0, polled := false, looked := false, startRunnable := C05.runnable m, startIntr := m.intr, mustFire := false, stop := none }
 
 theorem eventsRun_weak (C : TQContract) (fuel : Nat) (s : State) (h : Good C (fun _ _ => True) s) :
     Weak C (fun _ _ => True) (eventsRun fuel s) := by
